@@ -8,7 +8,7 @@ ids = [p["id"] for p in props]
 checks = []
 for pid in ids:
     c = D.CLAIMS.get(pid)
-    if not c:
+    if not c or pid not in D.ENABLED:
         continue
     checks.append({
         "property_id": pid,
@@ -22,16 +22,16 @@ for pid in ids:
         "technique": c["technique"],
     })
 na = [{"property_id": pid, "reason": D.NOT_APPLICABLE.get(pid, "not yet claimed: contracts for this property are not built yet")}
-      for pid in ids if pid not in D.CLAIMS]
+      for pid in ids if pid not in D.CLAIMS or pid not in D.ENABLED]
 m = {
     "version": 1,
     "setup_cmd": "./setup.sh",
     "hooks": {"guard": "ESP_IDF_KCONFIG_VERIF", "enable": "no hooks: pyvc reads /repo's source text; bounded stand-ins wrap functions at import time from /verif",
               "baseline_off_cmd": "/venv/bin/python /verif/tools/run_baseline.py /repo", "source_commits": [], "add_only": True},
     "engines": [
-        {"name": "pyvc", "path": "/verif/pyvc", "serves_properties": sorted(D.CLAIMS),
+        {"name": "pyvc", "path": "/verif/pyvc", "serves_properties": sorted(p for p in D.ENABLED if "bounded stand-in; nothing proved" not in D.CLAIMS[p]["technique"]),
          "kind_free_text": "contract-based deductive verification: Python ast -> verification conditions (symbolic execution, calls by contract, loop summaries) discharged by z3 / cvc5; sidecar contracts in /verif/contracts"},
-        {"name": "rtc", "path": "/verif/rtc", "serves_properties": sorted(p for p, c in D.CLAIMS.items() if c.get("bounded")),
+        {"name": "rtc", "path": "/verif/rtc", "serves_properties": sorted(p for p in D.ENABLED if "run-time contracts" in D.CLAIMS[p]["technique"]),
          "kind_free_text": "bounded stand-in: the same contracts checked at run time on the real functions over an exhaustively enumerated small scope (labelled bounded, never counted as proved)"},
     ],
     "checks": checks,
